@@ -17,7 +17,7 @@ Section CtlProofs.
   Proof. intros H. cbn. rewrite H. reflexivity. Qed.
 
   Lemma push_is_calm i s : stopped mx (fst (eval c (CAct (APush i)) s)) = stopped mx s /\ skp (fst (eval c (CAct (APush i)) s)) = skp s.
-  Proof. cbn. unfold do_act. destruct (frozen mx s); cbn; auto. Qed.
+  Proof. cbn. destruct (frozen mx s); cbn; auto. Qed.
 
   Definition is_last_when (cm : comp) : bool := match cm with CWhen IsLast _ _ => true | _ => false end.
 
